@@ -1,7 +1,7 @@
 (* C09 — CFG reachability answers equal true graph reachability at all times.
    Property theorems only; each is closed by [exact] and followed by Print Assumptions. *)
 From Coq Require Import List NArith Arith Bool Relations.
-From PV Require Import Typegraph.Reach Typegraph.ReachProofs.
+From PV Require Import Typegraph.Reach Typegraph.ReachProofs Typegraph.Prune Typegraph.PruneProofs.
 Import ListNotations.
 
 (* For every well-formed insertion history h (any length, any number of 64-bit buckets, self edges,
@@ -52,3 +52,102 @@ Example chain_closed :
   is_reachable (run (chain130 ++ [Connect 129 0])) 129 0 = true /\
   is_reachable (run (chain130 ++ [Connect 129 0])) 128 64 = true.
 Proof. vm_compute. split; reflexivity. Qed.
+
+(* ======================= the Python-visible reachability surface (cfg.cc) =======================
+   Histories are lists of Python-level calls (Prune.pyop): program.NewCFGNode, node.ConnectNew, node.ConnectTo,
+   program.NewVariable, var.AddBinding, binding.AddOrigin, var.PasteBinding, var.PasteVariable,
+   var.AssignToNewVariable.  py_wf: every call names existing nodes / variables / bindings (all the API can
+   express) and Paste* never pastes a variable into itself. *)
+
+(* (a) program.is_reachable(src, dst) <-> a directed path src ->* dst among the edges inserted by ConnectTo and
+   ConnectNew (ConnectNew a = NewCFGNode; a.ConnectTo(new)), argument order as exposed by cfg.cc. *)
+Theorem py_reach_correct : forall (d : nat) (h : list pyop) (a b : nat),
+  py_wf d h = true -> a < nodes (ps_prog (py_run d h)) -> b < nodes (ps_prog (py_run d h)) ->
+  (py_is_reachable (py_run d h) a b = true <->
+   clos_refl_trans nat (fun x y => In (x, y) (py_edges h)) a b).
+Proof. exact py_reach_correct_lemma. Qed.
+Print Assumptions py_reach_correct.
+
+(* (b) Variable::Prune(viewpoint = n) (Python: var.Bindings(n)) terminates within the model's fuel, returns no
+   binding twice, and returns exactly the reaching definitions: the bindings b of v that have an origin node m
+   with a path m -> ... -> n on which no node after m (n included when m <> n) carries an origin of any binding
+   of v.  This covers both branches of Prune (single-binding shortcut through the bit matrix, general walk). *)
+Theorem prune_reaching_definitions : forall (d : nat) (h : list pyop) (v n : nat),
+  py_wf d h = true -> n < nodes (ps_prog (py_run d h)) ->
+  exists r, prune (py_run d h) v (Some n) = Some r /\ NoDup r /\
+            forall b, In b r <-> reaching_def (py_edges h) (py_run d h) v b n.
+Proof. exact prune_reaching_definitions_lemma. Qed.
+Print Assumptions prune_reaching_definitions.
+
+(* the general backward walk alone (the code after the shortcut), for variables of any size *)
+Theorem prune_walk_reaching_definitions : forall (d : nat) (h : list pyop) (v n : nat),
+  py_wf d h = true -> n < nodes (ps_prog (py_run d h)) ->
+  exists r, prune_general (py_run d h) v n = Some r /\ NoDup r /\
+            forall b, In b r <-> reaching_def (py_edges h) (py_run d h) v b n.
+Proof. exact prune_general_reaching_definitions_lemma. Qed.
+Print Assumptions prune_walk_reaching_definitions.
+
+(* the bindings_.size() == 1 shortcut (bit matrix, uses reach_correct's invariant) returns the very list the
+   general walk over incoming_ would have returned: the two can never disagree *)
+Theorem prune_shortcut_agrees : forall (d : nat) (h : list pyop) (v n : nat),
+  py_wf d h = true -> n < nodes (ps_prog (py_run d h)) ->
+  length (pv_bindings (get_var (py_run d h) v)) = 1 ->
+  prune (py_run d h) v (Some n) = prune_general (py_run d h) v n.
+Proof. exact prune_shortcut_agrees_lemma. Qed.
+Print Assumptions prune_shortcut_agrees.
+
+(* var.Bindings(None): every binding, creation order *)
+Theorem prune_none_all : forall (s : pstate) (v : nat), prune s v None = Some (all_bindings (get_var s v)).
+Proof. exact prune_none_all_lemma. Qed.
+Print Assumptions prune_none_all.
+
+(* (c) Variable::Filter does not call Prune: it is the solver (Binding::IsVisible = Solver::Solve({b}, n), C07's
+   subject, the argument `vis` here) applied to every binding, except that a non-strict call on a single-binding
+   variable returns that binding without consulting the CFG or the solver at all. *)
+Theorem filter_strict_is_solver : forall vis s v n,
+  filter_model vis s v n true = filter (fun b => vis b n) (all_bindings (get_var s v)).
+Proof. exact filter_strict_lemma. Qed.
+Print Assumptions filter_strict_is_solver.
+
+Theorem filter_nonstrict_multi_is_solver : forall vis s v n, length (pv_bindings (get_var s v)) <> 1 ->
+  filter_model vis s v n false = filter (fun b => vis b n) (all_bindings (get_var s v)).
+Proof. exact filter_nonstrict_multi_lemma. Qed.
+Print Assumptions filter_nonstrict_multi_is_solver.
+
+Theorem filter_nonstrict_single_unconditional : forall vis s v n, length (pv_bindings (get_var s v)) = 1 ->
+  filter_model vis s v n false = all_bindings (get_var s v).
+Proof. exact filter_nonstrict_single_lemma. Qed.
+Print Assumptions filter_nonstrict_single_unconditional.
+
+(* "non-strict Filter returns only CFG-visible bindings (a subset of Prune)" is refuted: a binding whose only
+   origin cannot reach the viewpoint is pruned by Bindings(n) but returned by Filter(n, strict=False). *)
+Definition h_unreachable : list pyop := [PNewCFGNode; PNewCFGNode; PNewVariable; PAddBinding 0 1 (Some 1)].
+Theorem filter_nonstrict_subset_of_prune_refuted :
+  exists h v n, py_wf 0 h = true /\ n < nodes (ps_prog (py_run 0 h)) /\
+    prune (py_run 0 h) v (Some n) = Some [] /\
+    forall vis, filter_model vis (py_run 0 h) v n false = [0].
+Proof. exists h_unreachable, 0, 0. vm_compute. repeat split; auto. Qed.
+Print Assumptions filter_nonstrict_subset_of_prune_refuted.
+
+(* Non-vacuity: entry 0 -> {1, 2} -> 3 (join) -> 4 -> 3 (loop) and 3 -> 5; x assigned at 0 (d1), at 1 (d2), in the
+   loop body 4 (d3).  At 2 only the entry definition arrives, at the join all three, at 1 only its own. *)
+Definition h_loop : list pyop :=
+  [PNewCFGNode; PConnectNew 0; PConnectNew 0; PConnectNew 1; PConnectTo 2 3; PConnectNew 3; PConnectTo 4 3;
+   PConnectNew 3; PNewVariable;
+   PAddBinding 0 1 (Some 0); PAddBinding 0 2 (Some 1); PAddBinding 0 3 (Some 4)].
+Example loop_wf : py_wf 0 h_loop = true /\ nodes (ps_prog (py_run 0 h_loop)) = 6.
+Proof. vm_compute. split; reflexivity. Qed.
+Example loop_prune :
+  prune (py_run 0 h_loop) 0 (Some 2) = Some [0] /\ prune (py_run 0 h_loop) 0 (Some 1) = Some [1] /\
+  prune (py_run 0 h_loop) 0 (Some 3) = Some [2; 0; 1] /\ prune (py_run 0 h_loop) 0 (Some 5) = Some [2; 0; 1] /\
+  prune (py_run 0 h_loop) 0 (Some 4) = Some [2].
+Proof. vm_compute. repeat split; reflexivity. Qed.
+(* a single-binding variable across three buckets: the shortcut's hypotheses hold and it answers both ways *)
+Definition h_single : list pyop :=
+  PNewCFGNode :: map PConnectNew (seq 0 129) ++ [PNewVariable; PAddBinding 0 1 (Some 64)].
+Example single_wf : py_wf 0 h_single = true /\ length (pv_bindings (get_var (py_run 0 h_single) 0)) = 1.
+Proof. vm_compute. split; reflexivity. Qed.
+Example single_prune :
+  prune (py_run 0 h_single) 0 (Some 129) = Some [0] /\ prune (py_run 0 h_single) 0 (Some 63) = Some [] /\
+  prune_general (py_run 0 h_single) 0 129 = Some [0].
+Proof. vm_compute. repeat split; reflexivity. Qed.
